@@ -19,6 +19,38 @@ _NOT_BUILT = "check not built yet in this session (designed in DESIGN.md section
 NOT_APPLICABLE = {("C%02d" % i): _NOT_BUILT for i in range(1, 21)}
 _POOL_NOTE = "Trusted base: the Python reference model (vlib/model.py) written from the SBE rules; g++ 12.2 / clang 14 with libstdc++ 12 stand for gcc/clang; schema shapes are those of the generator (DESIGN 3.2) with small images (<= 3 entries per group instance, data <= 24 bytes)."
 CHECKS = {
+    "C01": {
+        "engine": "schema-pool",
+        "category": "exploration",
+        "text": "Over the generated schema pool: Hypothesis draws in-order encode scripts (fill_message_header or hand-written blockLength; a random subset and order of field setters incl. composite members, sets built from choice setters or raw values, array assign/fill/assign_string forms; per group fill_group_header or hand-written header + resize; per data one of the assign/resize/push_back/insert forms) and a background buffer; the generated driver executes the script through named accessors and the whole buffer must equal the background overlaid with exactly the bytes the independent reference model attributes to each operation (so wrong offsets, byte order, widths, strides, stray or missing writes all show), in every config of the pool entry.",
+        "design_ref": "DESIGN.md 3.3-3.5, 4 (C01)",
+        "note": _POOL_NOTE,
+        "technique": "property-based testing with a reference overlay encoder and whole-buffer comparison (Hypothesis)",
+    },
+    "C05": {
+        "engine": "schema-pool",
+        "category": "exploration",
+        "text": "Over the generated schema pool and generated value trees: run-time size_bytes of the message, header, every group, entry, data member, composite and array, the cursor-based size after a full traversal, size_bytes_checked, and the trait formulas size_bytes(counts..., total_data) of the message and of every group instance (arguments computed by the model in the documented parameter order) must all equal the sizes of the reference image.",
+        "design_ref": "DESIGN.md 4 (C05)",
+        "note": _POOL_NOTE + " Products of huge numInGroup/blockLength values (beyond 2^31) are not covered by this part yet.",
+        "technique": "property-based differential testing of size computations against reference image sizes (Hypothesis)",
+    },
+    "C17": {
+        "engine": "schema-pool",
+        "category": "exploration",
+        "text": "Over the generated schema pool (header composites with members in any order, custom offsets, extra members, ref-typed members, any integer types, optional counters): fill_message_header for every message and fill_group_header for a randomly chosen group at any depth (ancestors entered through reference-filled headers) with numInGroup in {0, 1, type max, random}, on a generated background; whole-buffer equality with the reference overlay shows both the exact values and that no other byte (padding, extra members) is touched; the returned view's address must be the header's.",
+        "design_ref": "DESIGN.md 4 (C17)",
+        "note": _POOL_NOTE,
+        "technique": "property-based testing with reference overlay and whole-buffer comparison (Hypothesis)",
+    },
+    "C19": {
+        "engine": "schema-pool",
+        "category": "exploration",
+        "text": "Over the generated schema pool and reference-encoded images (with and without inflated block lengths): a recording visitor is stopped at the k-th callback for every k (all k for traversals up to 40 callbacks, boundaries + sample beyond); the event log must equal the model's expected sequence truncated at k, no callback may follow the stop, and after a complete visit the cursor must be at the message end. Enum values and sets are visited inside the traversal (value tag / unknown tag; every choice with its bit). get_by_tag dumps must equal the value tree and set_by_tag scripts must produce the reference overlay buffer.",
+        "design_ref": "DESIGN.md 4 (C19), A.4",
+        "note": _POOL_NOTE + " visit() on stand-alone group/entry/composite views is exercised only through the nested traversal from the message.",
+        "technique": "property-based testing with a model of the expected callback sequence and exhaustive stop points per case (Hypothesis)",
+    },
     "C02": {
         "engine": "schema-pool",
         "category": "exploration",
